@@ -57,11 +57,11 @@ checks = {
    technique="symbolic execution of go/ssa with reflect/unsafe memory model + SMT",
    ref="DESIGN.md §5 C04"),
  "C14": dict(level="other",
-   text="Bounded symbolic execution of trait/seq: every expression tree over the eight combinators up to depth 2 (quick) / 3 (thorough) with 0..2-element leaves is built from the real constructors and drained by the documented loop and by ForEach (failing at every position); element values and all predicate / mapping / flat-map behaviours are solver variables (uninterpreted functions), the result is compared with a reference list evaluator; source slices compared before/after.",
+   text="Bounded symbolic execution of trait/seq: every expression tree over the eight combinators up to depth 2 with 0..2-element leaves (depth 3 did not finish within 45 minutes and is not registered) is built from the real constructors and drained by the documented loop and by ForEach (failing at every position); element values and all predicate / mapping / flat-map behaviours are solver variables (uninterpreted functions), the result is compared with a reference list evaluator; source slices compared before/after.",
    technique="symbolic execution of go/ssa with forked expression shapes + SMT (QF_UFBV)",
    ref="DESIGN.md §5 C14"),
  "C15": dict(level="other",
-   text="As C14 for trait/pair: trees over From/FromSeq/TakeWhile/DropWhile/Filter/Map/Plus/Join to depth 2 (3 thorough), ForEach and ToSeq one level shallower, FromSeq over 0..3 plain elements; keys and values independent symbols, binary uninterpreted predicates/mappings/selectors; reference is a list of pairs, Key() and Value() read at each position.",
+   text="As C14 for trait/pair: trees over From/FromSeq/TakeWhile/DropWhile/Filter/Map/Plus/Join to depth 2, ForEach and ToSeq one level shallower, FromSeq over 0..3 plain elements; keys and values independent symbols, binary uninterpreted predicates/mappings/selectors; reference is a list of pairs, Key() and Value() read at each position.",
    technique="symbolic execution of go/ssa with forked expression shapes + SMT (QF_UFBV)",
    ref="DESIGN.md §5 C15"),
  "C17": dict(level="other",
